@@ -199,6 +199,9 @@ class Slicer:
                         s.merge_summary(self.whole_body(e[1], depth - 1))
         s.locals = {((n[1] if n[0] == 'w' else n[0]) if isinstance(n, tuple) else n) for n in seen}
         s.nodes = seen
+        uniq = {}
+        for c in s.call_objs: uniq[id(c)] = c
+        s.call_objs = list(uniq.values())
         return s
 
     def _merge_callee(self, s, path, depth, name=None):
